@@ -45,3 +45,12 @@ package chpool
 //@ contract (c *Client) Ping(ctx) (err) props(C11)
 //@   requires c != nil && c.res != nil && c.res.acquired && c.res.value != nil && c.res.value.client != nil
 //@   modifies all(c.res.value.client)
+
+//@ -- constructor / destructor handed to puddle
+//@ contract newPool$1(ctx) (r, err) props(C11)
+//@   ensures err == nil ==> r != nil && r.client != nil {value-has-client}
+//@   ensures err != nil ==> r == nil
+//@ contract newPool$2(c) props(C11)
+//@   requires c != nil && c.client != nil
+//@   modifies all(c.client)
+//@   ensures c.client.closed {destructor-closes-client}
